@@ -2,7 +2,7 @@
 # selftest/run_mutants.sh [pattern]   — runs every selftest/mutants/<prop>-*.diff (and seeded/*/patch.diff
 # with --seeded) against the quick check of its property, in a scratch worktree of /repo.
 cd /verif
-PAT=${1:-}
+PATS="$*"   # optional substrings; a mutant runs when its name contains any of them
 WT=/tmp/verif-mutrun
 git -C /repo worktree remove --force $WT >/dev/null 2>&1; rm -rf $WT
 git -C /repo worktree add --detach $WT HEAD -f >/dev/null 2>&1 || exit 2
@@ -10,7 +10,7 @@ trap 'git -C /repo worktree remove --force $WT >/dev/null 2>&1; rm -rf $WT' EXIT
 caught=0; missed=0
 for f in selftest/mutants/*.diff; do
   b=$(basename $f .diff); prop=${b%%-*}
-  case "$b" in *$PAT*) ;; *) continue;; esac
+  if [ -n "$PATS" ]; then hit=0; for p in $PATS; do case "$b" in *$p*) hit=1;; esac; done; [ $hit -eq 1 ] || continue; fi
   r=$(SEED_REPO=$WT ./tools/seedtest.sh $f $prop quick 1 2>&1 | tail -3)
   v=$(echo "$r" | grep -o "seedtest: [A-Z]*" | tail -1)
   s=$(echo "$r" | grep -o "signature=.*" | head -1 | cut -c1-140)
